@@ -54,6 +54,12 @@ func newLazyHarness(root, lp *packages.Package) *bitHarness {
 			}
 		}
 	}
+	// error constructors: only "an error" matters to the harnesses
+	m.Natives = map[string]func([]bitexec.Value) []bitexec.Value{
+		"wireTypeMismatchError": func([]bitexec.Value) []bitexec.Value {
+			return []bitexec.Value{bitexec.Err{Nil: false, Desc: "WireTypeMismatchError"}}
+		},
+	}
 	return &bitHarness{m: m, pk: lp}
 }
 
